@@ -591,7 +591,7 @@ def run(ctx):
                 for step, ev, what in problems:
                     hs = h if len(h) <= 6 else h[:3] + ["...x%d" % len(h)]
                     res.add(Violation(PROP, "history", "get_converter", "creation history %s, after event %d (%s): %s" % (hs, step, ev, what),
-                                      {"engine": "HIST", "history": h[:10] if len(h) > 10 else h, "step": step, "input": None},
+                                      {"engine": "HIST", "history": list(h), "step": step, "input": None},
                                       node=h[:10], extra="%s@%s" % (ev, what.split(" differs")[0].split(":")[0][:40])))
         hist_stats["outcome_classes"] = classes
     res.coverage = {
